@@ -210,6 +210,7 @@ pub fn c05() -> PropDef {
         adjust: no_adjust,
         assumptions: COMMON_ASSUMPTIONS,
         tiny: no_tiny,
+        long: None,
     }
 }
 
@@ -430,5 +431,6 @@ pub fn c09() -> PropDef {
         adjust: no_adjust,
         assumptions: COMMON_ASSUMPTIONS,
         tiny: no_tiny,
+        long: None,
     }
 }
